@@ -92,4 +92,49 @@ mod verif_c01_wit {
             assert!(a != b, "no two routes have the same edge sequence");
         } }
     }
+
+    /// an access model whose effect depends on the PAIR (previous edge, next edge): it adds 1000 * previous id + next id metres
+    struct PairPenalty {}
+    impl crate::model::access::access_model::AccessModel for PairPenalty {
+        fn state_features(&self) -> Vec<(String, crate::model::state::state_feature::StateFeature)> { vec![] }
+        fn access_edge(&self, t: (&crate::model::network::Vertex, &crate::model::network::Edge, &crate::model::network::Vertex, &crate::model::network::Edge, &crate::model::network::Vertex),
+                       state: &mut Vec<crate::model::traversal::state::state_variable::StateVar>, sm: &crate::model::state::state_model::StateModel)
+            -> Result<(), crate::model::access::access_model_error::AccessModelError> {
+            let (_, e1, _, e2, _) = t;
+            let penalty = crate::model::unit::Distance::new(1000.0 * e1.edge_id.0 as f64 + e2.edge_id.0 as f64);
+            sm.add_distance(state, &String::from("distance"), &penalty, &crate::model::unit::DistanceUnit::Meters)
+                .map_err(|e| crate::model::access::access_model_error::AccessModelError::RuntimeError { name: String::from("pair"), error: e.to_string() })
+        }
+    }
+
+    /// C03 / C13: the state and costs a k-shortest-path route reports are those of traversing ITS edges in order -- each edge accessed from the
+    /// edge actually before it -- from the initial state.  Checked by re-traversing every returned route from scratch with the real
+    /// EdgeTraversal::forward_traversal under an access model that depends on the (previous, next) edge pair.
+    #[test]
+    fn c03_wit_ksp_routes_report_their_own_retraversal() {
+        use crate::algorithm::search::edge_traversal::EdgeTraversal;
+        use crate::model::unit::as_f64::AsF64;
+        let g = W::graph(7, &[(0, 1, 1.0), (1, 2, 1.0), (2, 3, 1.0), (0, 4, 1.5), (4, 5, 1.5), (5, 3, 1.5), (1, 5, 2.0), (4, 2, 2.0), (2, 6, 1.0), (6, 1, 1.0)]);
+        let mut si = W::instance(g, Arc::new(NoRestriction {}), TerminationModel::IterationsLimit { limit: 10000 });
+        si.access_model = Arc::new(PairPenalty {});
+        let q = serde_json::json!({});
+        for alg in [SearchAlgorithm::KspSingleVia { k: 4, underlying: Box::new(SearchAlgorithm::Dijkstra), similarity: None, termination: None },
+                    SearchAlgorithm::Yens { k: 3, underlying: Box::new(SearchAlgorithm::Dijkstra), similarity: None, termination: None }] {
+            let r = alg.run_vertex_oriented(VertexId(0), Some(VertexId(3)), &q, &Direction::Forward, &si).unwrap();
+            assert!(r.routes.len() >= 2, "the ladder has alternatives");
+            for route in r.routes.iter() {
+                let mut state = si.state_model.initial_state().unwrap();
+                let mut prev = None;
+                for et in route.iter() {
+                    let again = EdgeTraversal::forward_traversal(et.edge_id, prev, &state, &si).unwrap();
+                    let ids: Vec<usize> = route.iter().map(|e| e.edge_id.0).collect();
+                    assert_eq!(again.result_state.iter().map(|v| v.0).collect::<Vec<_>>(), et.result_state.iter().map(|v| v.0).collect::<Vec<_>>(),
+                               "route {:?}, edge {}: the reported state is the state of re-traversing the route", ids, et.edge_id.0);
+                    assert!((again.total_cost().as_f64() - et.total_cost().as_f64()).abs() < 1e-9, "route {:?}, edge {}: the reported cost is the cost of re-traversing the route", ids, et.edge_id.0);
+                    state = again.result_state.clone();
+                    prev = Some(et.edge_id);
+                }
+            }
+        }
+    }
 }
